@@ -152,6 +152,7 @@ def rt(fcp: "ref:FcpV2", t: "ref:Type", v: "dyn", a: "seq[int]", b: "seq[int]"):
     """RT: the wire image of a conforming value, between any two bit strings, `starts` with that value"""
     requires(wf_type(fcp, t) and conforms(fcp, t, v))
     ensures(starts(fcp, t, a + wire(fcp, t, v) + b, len(a), v))
+    option("opaque", ["wf_struct", "conforms_struct", "starts_struct", "wire_struct"])
     if isinstance(t, UnsignedType) or isinstance(t, SignedType):
         val_of_word_bits(d_int(v), num_width(t), a, b)
         mod_range(d_int(v), num_width(t))
